@@ -65,68 +65,4 @@ def tightPaths (arcs : Arcs) (d : List (Nat × Int)) (s : Nat) : Nat → Nat →
 
 end Arcs
 
-/-- Lexicographic canonical order of paths, for printing and set comparison. -/
-def sortPaths (ps : List (List Nat)) : List (List Nat) := sortNatLists ps
-
-def sameSet (a b : List (List Nat)) : Bool := sortPaths (dedup a) == sortPaths (dedup b)
-
-/-! ## The checker for one single-source answer (C04, C08)
-
-  `checkSingleSource` decides whether an answer (a list of `(target, distance, paths)`) is what
-  the properties demand for the given options, using only `Abs.arcs`. -/
-
-structure SPQuery where
-  weighted : Bool
-  source : Nat
-  target : Option Nat
-  cutoff2 : Option Int
-  firstOnly : Bool
-  withPaths : Bool
-
-/-- Returns the name of the first violated clause, or `none`. `positive` = all costs > 0. -/
-def checkSingleSource (nodes : List Nat) (arcs : Arcs) (q : SPQuery)
-    (ans : List (Nat × Int × List (List Nat))) : Option String :=
-  let n := nodes.length
-  let d := Arcs.distFrom arcs n q.source
-  let positive := arcs.all fun a => a.2.2 > 0
-  let within (x : Int) : Bool := match q.cutoff2 with | none => true | some c => 2 * x ≤ c
-  -- which targets must be reported
-  let reachable := (d.filter fun kv => within kv.2).map (·.1)
-  let keys := ans.map (·.1)
-  if keys.length != (dedup keys).length then some "duplicate-target"
-  else if keys.any (fun k => !nodes.contains k) then some "unknown-target"
-  else
-    -- every reported node is reachable within the cutoff, with the exact distance
-    let badDist := ans.any fun r => alookup d r.1 != some r.2.1 || !within r.2.1
-    if badDist then some "distance"
-    else
-      -- completeness: without a target every reachable node (within the cutoff) is reported;
-      -- with a target, the target is reported iff reachable (others: any subset)
-      let complete := match q.target with
-        | none => reachable.all keys.contains
-        | some t => !reachable.contains t || keys.contains t
-      if !complete then some "missing-node"
-      else if !q.withPaths then
-        (if ans.any (fun r => !r.2.2.isEmpty) then some "paths-not-empty" else none)
-      else
-        -- every returned path: starts at the source, ends at the target, follows arcs, weighs the distance
-        let badPath := ans.any fun r => r.2.2.any fun p =>
-          p.head? != some q.source || p.getLast? != some r.1 || Arcs.walkCost arcs p != some r.2.1
-        if badPath then some "invalid-path"
-        else
-          -- every reported node is finalised, so its path list is complete even when the
-          -- search stopped early at a target
-          let relevant := ans
-          if q.firstOnly then
-            -- exactly one path per (relevant) reported node
-            (if relevant.any (fun r => r.2.2.length != 1) then some "first-only-count" else none)
-          else if positive then
-            -- exactly the set of all shortest paths, each once
-            let bad := relevant.any fun r =>
-              r.2.2.length != (dedup r.2.2).length ||
-              !sameSet r.2.2 (Arcs.tightPaths arcs d q.source n r.1)
-            if bad then some "all-paths" else none
-          else
-            (if relevant.any (fun r => r.2.2.isEmpty) then some "no-path" else none)
-
 end Graphrs
